@@ -171,9 +171,8 @@ def get_assignment_class(smarts_filename, nb_filename):
         or smarts_filename != _global_smarts_rule_file
         or nb_filename != _global_nonbonded_itp_file
     ):
+        assignment_class = SMARTS_ASSIGNMENTS(smarts_filename, nb_filename)
         _global_nonbonded_itp_file = nb_filename
         _global_smarts_rule_file = smarts_filename
-        _global_assignment_class = SMARTS_ASSIGNMENTS(
-            _global_smarts_rule_file, _global_nonbonded_itp_file
-        )
+        _global_assignment_class = assignment_class
     return _global_assignment_class
